@@ -250,6 +250,33 @@ pub fn run(ctx: &Ctx) -> Value {
             if let Some(dt) = mk(|| FixedOffset::east_opt(off).and_then(|o| o.from_local_datetime(u).single())) { emit_fixed(&mut tw, &mut c, &dt); } else { c.skipped += 1; }
         }
     }
+    // --- DateTime<Local> in a zone WITH daylight saving (TZ is a POSIX rule, read by a fresh thread): around the gap and inside the fold the
+    //     text carries the offset, so each pass through the repeated hour reads back as itself
+    for tzv in ["CET-1CEST,M3.5.0,M10.5.0/3", "AEST-10AEDT,M10.1.0,M4.1.0/3"] {
+        std::env::set_var("TZ", tzv);
+        let h = std::thread::spawn(move || {
+            use chrono::Local;
+            let mut out: Vec<Value> = Vec::new();
+            let mut instants: Vec<i64> = Vec::new();
+            for t in [1_711_846_800i64, 1_729_990_800, 1_728_144_000, 1_712_419_200, 1_635_642_000] { for k in -6..=6 { instants.push(t + k * 1_800); instants.push(t + k * 1_800 + 1); } }
+            for t in instants {
+                let Some(u) = chrono::DateTime::from_timestamp(t, 500_000_000).map(|d| d.naive_utc()) else { continue };
+                let Ok(dt) = guard(|| Local.from_utc_datetime(&u)) else { continue };
+                let off = chrono::Offset::fix(dt.offset()).local_minus_utc();
+                let args = json!({"ty": "fixed", "u": ndt(u), "off": off, "headroom": 0, "zone": "Local with a DST rule"});
+                let (d, g) = (dt.to_string(), format!("{:?}", dt));
+                out.push(ev("show", args.clone(), || json!({"display": cps(&d), "debug": cps(&g)})));
+                for (form, text) in [("display", d.clone()), ("debug", g.clone())] {
+                    let mut a = args.clone(); a["form"] = json!(form);
+                    out.push(ev("roundtrip", a, || match text.parse::<DateTime<Local>>() {
+                        Ok(b) => json!({"back": {"ok": {"u": ndt(b.naive_utc()), "off": chrono::Offset::fix(b.offset()).local_minus_utc()}}}), Err(_) => json!({"back": {"err": 1}}) }));
+                }
+            }
+            out
+        });
+        for e in h.join().unwrap_or_default() { tw.emit(e); c.show += 1; }
+        std::env::remove_var("TZ");
+    }
     // --- weekdays and months: texts, round trip, and the reader on names in any case and on everything near a name
     for i in 0..7 {
         let w = wd_of(i);
